@@ -14,6 +14,9 @@ def main(argv):
         print("usage: vfcheck <ID> <quick|thorough> | vfcheck <ID> --replay <file>")
         return 2
     prop = argv[0].upper()
+    from .core import scratch_top
+
+    scratch_top()  # one scratch directory per run (also TMPDIR), removed at exit
     mod = importlib.import_module("vf.checks.%s" % prop.lower())
     try:
         # third-party imports first (some checks patch threading before importing memento)
